@@ -195,7 +195,8 @@ def i_SLTIU(ins, fmap):
 @__npc
 def i_SLL(ins, fmap):
     dst, src1, src2 = ins.operands
-    src1.sf = src2.sf = False
+    src1 = src1.unsigned()
+    src2 = src2.unsigned()
     src2 = src2 & 0x3F
     if dst is not zero:
         fmap[dst] = fmap(src1 << src2)
@@ -204,7 +205,8 @@ def i_SLL(ins, fmap):
 @__npc
 def i_SRL(ins, fmap):
     dst, src1, src2 = ins.operands
-    src1.sf = src2.sf = False
+    src1 = src1.unsigned()
+    src2 = src2.unsigned()
     src2 = src2 & 0x3F
     if dst is not zero:
         fmap[dst] = fmap(src1 >> src2)
@@ -213,8 +215,10 @@ def i_SRL(ins, fmap):
 @__npc
 def i_SRA(ins, fmap):
     dst, src1, src2 = ins.operands
-    src1.sf = True
-    src2.sf = False
+    # the operands are the registers shared by the whole module:
+    # flag copies of them, not the registers
+    src1 = src1.signed()
+    src2 = src2.unsigned()
     src2 = src2 & 0x3F
     if dst is not zero:
         fmap[dst] = fmap(oper(OP_ASR, src1, src2))
@@ -223,7 +227,8 @@ def i_SRA(ins, fmap):
 @__npc
 def i_SLLI(ins, fmap):
     dst, src1, src2 = ins.operands
-    src1.sf = src2.sf = False
+    src1 = src1.unsigned()
+    src2 = src2.unsigned()
     if dst is not zero:
         fmap[dst] = fmap(src1 << src2)
 
@@ -231,7 +236,8 @@ def i_SLLI(ins, fmap):
 @__npc
 def i_SRLI(ins, fmap):
     dst, src1, src2 = ins.operands
-    src1.sf = src2.sf = False
+    src1 = src1.unsigned()
+    src2 = src2.unsigned()
     if dst is not zero:
         fmap[dst] = fmap(src1 >> src2)
 
